@@ -532,6 +532,19 @@ func cmdCheck(args []string) {
 				stable = false // named by a loop ordinal: shifts when another loop is added
 			}
 			if stable {
+				// a clause that names a local variable which no longer exists is most likely the
+				// victim of a rename: reported (CONTRACT-ERROR, unattached), not counted as a violation
+				label := parts[2]
+				if i := strings.LastIndex(label, ":"); i >= 0 {
+					label = label[i+1:]
+				}
+				for _, note := range ro.notes {
+					if strings.Contains(note, " "+label+": ") && strings.Contains(note, "unknown identifier") {
+						stable = false
+					}
+				}
+			}
+			if stable {
 				lost = append(lost, n)
 			} else {
 				unattached = append(unattached, n)
